@@ -61,7 +61,8 @@ func kindOf(p *model.PushPullPack) string {
 	return "normal"
 }
 
-const deadline = 12 * time.Second
+// a request that is not answered within this time counts as hanging (a loaded machine answers late, not never)
+var deadline = stack.Patience(12 * time.Second)
 
 // round is one world: a fresh store and server, n clients, nk datatypes each.
 type round struct {
@@ -261,12 +262,13 @@ func (w *round) burst(who []int, k int) bool {
 
 func (w *round) local(c, k int) {
 	key := [2]int{c, k}
+	w.mu.Lock()
 	if w.nlocal[key] >= 3 {
+		w.mu.Unlock()
 		return
 	}
 	w.nlocal[key]++
 	idx := (c-1)*3 + w.nlocal[key] - 1
-	w.mu.Lock()
 	w.dts[c][k].Counter.IncreaseBy(int32(1) << (2 * uint(idx)))
 	w.trace[k] = append(w.trace[k], ev{"event": "local", "c": c})
 	w.mu.Unlock()
@@ -342,13 +344,28 @@ func main() {
 	}
 	enc := json.NewEncoder(f)
 	var viol []Violation
+	// a round in which a request was not answered is reported as such; its cut-off trace is not validated as well
+	hung := func(vs []Violation) bool {
+		for _, v := range vs {
+			if v.Class == "hang" {
+				return true
+			}
+		}
+		return false
+	}
 	nevents, ncalls, nparallel := 0, 0, 0
 	shapes := map[string]int{}
 	if *entry > 0 {
 		for r := 0; r < *entry; r++ {
 			shapes["entry"]++
-			ev, calls, v := entryRound(r, *seed, rng)
-			for _, e := range ev {
+			evs, calls, v := entryRound(r, *seed, rng)
+			if len(evs) == 0 || evs[len(evs)-1]["event"] != "reset" { // a round cut short
+				evs = append(evs, ev{"event": "reset"})
+			}
+			for _, e := range evs {
+				if hung(v) && e["event"] != "reset" {
+					continue
+				}
 				enc.Encode(e)
 				nevents++
 			}
@@ -361,8 +378,14 @@ func main() {
 	if *big > 0 {
 		for r := 0; r < *big; r++ {
 			shapes["big"]++
-			ev, calls, v := bigRound(r, *seed, rng)
-			for _, e := range ev {
+			evs, calls, v := bigRound(r, *seed, rng)
+			if len(evs) == 0 || evs[len(evs)-1]["event"] != "reset" { // a round cut short
+				evs = append(evs, ev{"event": "reset"})
+			}
+			for _, e := range evs {
+				if hung(v) && e["event"] != "reset" {
+					continue
+				}
 				enc.Encode(e)
 				nevents++
 			}
@@ -374,6 +397,7 @@ func main() {
 	for r := 0; r < *rounds; r++ {
 		shape := []string{"burst", "staggered", "multi"}[r%3]
 		shapes[shape]++
+		nviol0 := len(viol)
 		st, err := stack.New()
 		if err != nil {
 			fmt.Printf(`{"error":"stack: %s"}`+"\n", err)
@@ -504,6 +528,9 @@ func main() {
 		for k := 0; k < w.nk; k++ {
 			w.trace[k] = append(w.trace[k], ev{"event": "reset"})
 			for _, e := range w.trace[k] {
+				if hung(viol[nviol0:]) && e["event"] != "reset" {
+					continue
+				}
 				enc.Encode(e)
 				nevents++
 			}
